@@ -41,6 +41,7 @@ def gen_cases(tier, seed):
         if len(tt) == 2 and tt[0] == tt[1]:
             for lo in range(0, len(cat[tt]), 2):
                 yield ('P', i, lo, lo + 2)
+    yield ('P3',)
     for si in range(3):
         nk = 3 if si < 2 else 2
         for amask in range(1 << (nk * nk)):
@@ -111,6 +112,8 @@ def run_case(case):
         part_s(3, [AL[i] for i in case[1]], [AL[0], AL[2], AL[3]], r, case)
     elif case[0] == 'P':
         part_p(case[1], r, case, case[2] if len(case) > 2 else 0, case[3] if len(case) > 3 else None)
+    elif case[0] == 'P3':
+        part_p3(r, case)
     elif case[0] == 'M':
         part_m(case[1], case[2], r, case)
     elif case[0] == 'S1':
@@ -214,6 +217,55 @@ def part_p(i, r, case, lo=0, hi=None):
                         r.bad('not-least-solution', 'indices.PatternedTensor.solve', sem, '%s: A=%s (%s) b=%s: patterned solve %r, dense semiring solve %r' % (sem, P.show(pa), scale, P.show(pb), x.tolist(), want.tolist()), ('P', i), key)
                     else:
                         r.ok(key, outcome=(sem, scale), nontrivial=True)
+
+
+def part_p3(r, case):
+    """Permutation patterns over three shared physical axes: a[(i,j,k), sigma(i,j,k)] = p[i,j,k]; the support of
+    a^n b keeps growing for several steps when b is one-hot (the closure loop of PatternedTensor.solve must iterate)."""
+    import torch
+    from fggs.indices import PatternedTensor, PhysicalAxis, SumAxis, productAxis, unitAxis
+    for sigma in itertools.permutations(range(3)):
+        for bkind in ['dense', 'diag'] + [('onehot', pos) for pos in ((0, 0, 1), (1, 0, 1), (0, 1, 0))] + ['matrix-onehot']:
+            for scale in ('sub', 'super'):
+                for sem in SEMS:
+                    key = (case, sigma, bkind, scale, sem)
+                    S = IR.semiring(sem, 'float64')
+                    zero = S.from_int(0).item()
+                    try:
+                        ax = [PhysicalAxis(2) for _ in range(3)]
+                        phys = (torch.arange(1., 9., dtype=torch.float64).reshape(2, 2, 2)) * (1.0 / 80 if scale == 'sub' else 1.0)
+                        va = (productAxis(ax), productAxis([ax[i] for i in sigma]))
+                        if bkind == 'dense':
+                            bt = PatternedTensor(torch.arange(1., 9., dtype=torch.float64))
+                        elif bkind == 'diag':
+                            k = PhysicalAxis(2)
+                            bt = PatternedTensor(torch.tensor([3., 5.], dtype=torch.float64), (k,), (productAxis((k, k, k)),), 0.)
+                        elif bkind == 'matrix-onehot':
+                            k = PhysicalAxis(2)
+                            bt = PatternedTensor(torch.tensor([3., 5.], dtype=torch.float64), (k,), (productAxis((SumAxis(1, unitAxis, 0), SumAxis(0, unitAxis, 1), SumAxis(0, unitAxis, 1))), k), 0.)
+                        else:
+                            pos = bkind[1]
+                            bt = PatternedTensor(torch.tensor(7., dtype=torch.float64), (), (productAxis([SumAxis(x, unitAxis, 1 - x) for x in pos]),), 0.)
+                        if sem == 'real':
+                            a = PatternedTensor(phys, ax, va, zero)
+                            b = PatternedTensor(bt.physical, bt.paxes, bt.vaxes, zero)
+                        elif sem == 'bool':
+                            a = PatternedTensor(phys > 0, ax, va, False)
+                            b = PatternedTensor(bt.physical > 0, bt.paxes, bt.vaxes, False)
+                        else:
+                            a = PatternedTensor(phys.log(), ax, va, zero)
+                            b = PatternedTensor(bt.physical.log(), bt.paxes, bt.vaxes, zero)
+                        Ad, Bd = a.to_dense(), b.to_dense()
+                        x = a.solve(b, S).to_dense()
+                        want = S.solve(Ad.clone(), Bd.clone())
+                    except Exception as e:
+                        r.exc(e, sem, ('P3',), key, msg='permutation-pattern solve sigma=%r b=%r %s %s: %s: %s' % (sigma, bkind, scale, sem, type(e).__name__, str(e)[:150]))
+                        continue
+                    same = torch.equal(x, want) if sem == 'bool' else (x.shape == want.shape and torch.equal(torch.isinf(x), torch.isinf(want)) and torch.allclose(x, want, rtol=1e-9, atol=1e-12))
+                    if not same:
+                        r.bad('not-least-solution', 'indices.PatternedTensor.solve', sem, '%s: a[(i,j,k), perm %r] (%s), b %r: patterned solve %r, dense semiring solve %r' % (sem, sigma, scale, bkind, x.tolist(), want.tolist()), ('P3',), key)
+                    else:
+                        r.ok(key, outcome=(sem, 'perm'), nontrivial=True)
 
 
 # ---------------------------------------------------------------------------------------------
